@@ -6,6 +6,8 @@ open UtilModel
 #print axioms UtilModel.Lin.linearizable_of_sim
 #print axioms UtilModel.Lin.linearizable_textbook
 #print axioms UtilModel.Lin.flow_of_linearizable
+#print axioms UtilModel.Lin.empty_of_linearizable
+#print axioms UtilModel.Lin.container_of_linearizable
 #print axioms Treiber.treiber_refines_stack
 #print axioms Treiber.treiber_linearizable
 #print axioms Treiber.lincheck_sound
